@@ -11,10 +11,10 @@ use crate::transcode;
 pub(crate) fn input_matches(mut input: Ref) -> io::Result<bool> {
 	let result = match &mut input {
 		Ref::Reader(r) => match_input_reader(r),
-		Ref::Slice(b) => match str::from_utf8(b) {
-			Ok(s) => match_input_str(s),
-			Err(_) => return Ok(false),
-		},
+		// Like the reader trial, only look at the first value: checking the
+		// UTF-8 validity of the entire slice up front would make detection
+		// depend on bytes that a reader input never gets to see.
+		Ref::Slice(b) => match_input_slice(b),
 	};
 	match result {
 		Err(err) if err.is_io() => Err(err.into()),
@@ -23,8 +23,8 @@ pub(crate) fn input_matches(mut input: Ref) -> io::Result<bool> {
 	}
 }
 
-fn match_input_str(input: &str) -> Result<(), serde_json::Error> {
-	let mut de = serde_json::Deserializer::from_str(input);
+fn match_input_slice(input: &[u8]) -> Result<(), serde_json::Error> {
+	let mut de = serde_json::Deserializer::from_slice(input);
 	de::IgnoredAny::deserialize(&mut de).and(Ok(()))
 }
 
